@@ -220,6 +220,12 @@ func c18(r *Run) {
 		if len(closes) == 0 {
 			r.ob("C18.R3:shrink-closes-surplus", "Run closes the surplus pollers when the pool shrinks", run, nil, false, "no poll.Close() in Run", false)
 		}
+		nOld := 0
+		defer func() {
+			if len(closes) > 0 && nOld == 0 {
+				r.ob("C18.R3:shrink-closes-surplus", "Run closes elements of the installed pool m.polls when the pool shrinks", run, nil, false, "no Close() of an element of m.polls in Run", false)
+			}
+		}()
 		for i, c := range closes {
 			// the closed element comes from m.polls and the loop is bounded by len(m.polls)
 			_, fromOld := func() (ssa.Value, bool) {
@@ -249,6 +255,11 @@ func c18(r *Run) {
 					}
 				}
 			}
+			if !fromOld {
+				// a close of pollers that are not part of the installed pool (clean-up of a failed growth): C15.R5
+				continue
+			}
+			nOld++
 			r.ob(fmt.Sprintf("C18.R3:shrink-closes-surplus#%d", i+1), "the surplus pollers that are closed are the elements of the current pool m.polls from the new size up to len(m.polls) (a loop bounded by the new, shorter slice closes nothing)", run, c, fromOld && boundOld, fmt.Sprintf("element of m.polls=%v, loop bound len(m.polls)=%v", fromOld, boundOld), true)
 		}
 	}
